@@ -446,6 +446,68 @@ fn unit_name(u: &U) -> String {
     }
 }
 
+/// The same message through the genuine fixed-capacity formatter `ArrayVec<u8, CAP>` (CAP 0..=49).
+fn run_fixed<D: scpi::Device>(cap: usize, root: &scpi::tree::Node<D>, msg: &[u8], dev: &mut D, ctx: &mut Context) -> (scpi::error::Result<()>, Vec<u8>) {
+    fn go<D: scpi::Device, const CAP: usize>(root: &scpi::tree::Node<D>, msg: &[u8], dev: &mut D, ctx: &mut Context) -> (scpi::error::Result<()>, Vec<u8>) {
+        let mut f: arrayvec::ArrayVec<u8, CAP> = arrayvec::ArrayVec::new();
+        let r = root.run(msg, dev, ctx, &mut f);
+        (r, f.as_slice().to_vec())
+    }
+    match cap {
+        0 => go::<D, 0>(root, msg, dev, ctx),
+        1 => go::<D, 1>(root, msg, dev, ctx),
+        2 => go::<D, 2>(root, msg, dev, ctx),
+        3 => go::<D, 3>(root, msg, dev, ctx),
+        4 => go::<D, 4>(root, msg, dev, ctx),
+        5 => go::<D, 5>(root, msg, dev, ctx),
+        6 => go::<D, 6>(root, msg, dev, ctx),
+        7 => go::<D, 7>(root, msg, dev, ctx),
+        8 => go::<D, 8>(root, msg, dev, ctx),
+        9 => go::<D, 9>(root, msg, dev, ctx),
+        10 => go::<D, 10>(root, msg, dev, ctx),
+        11 => go::<D, 11>(root, msg, dev, ctx),
+        12 => go::<D, 12>(root, msg, dev, ctx),
+        13 => go::<D, 13>(root, msg, dev, ctx),
+        14 => go::<D, 14>(root, msg, dev, ctx),
+        15 => go::<D, 15>(root, msg, dev, ctx),
+        16 => go::<D, 16>(root, msg, dev, ctx),
+        17 => go::<D, 17>(root, msg, dev, ctx),
+        18 => go::<D, 18>(root, msg, dev, ctx),
+        19 => go::<D, 19>(root, msg, dev, ctx),
+        20 => go::<D, 20>(root, msg, dev, ctx),
+        21 => go::<D, 21>(root, msg, dev, ctx),
+        22 => go::<D, 22>(root, msg, dev, ctx),
+        23 => go::<D, 23>(root, msg, dev, ctx),
+        24 => go::<D, 24>(root, msg, dev, ctx),
+        25 => go::<D, 25>(root, msg, dev, ctx),
+        26 => go::<D, 26>(root, msg, dev, ctx),
+        27 => go::<D, 27>(root, msg, dev, ctx),
+        28 => go::<D, 28>(root, msg, dev, ctx),
+        29 => go::<D, 29>(root, msg, dev, ctx),
+        30 => go::<D, 30>(root, msg, dev, ctx),
+        31 => go::<D, 31>(root, msg, dev, ctx),
+        32 => go::<D, 32>(root, msg, dev, ctx),
+        33 => go::<D, 33>(root, msg, dev, ctx),
+        34 => go::<D, 34>(root, msg, dev, ctx),
+        35 => go::<D, 35>(root, msg, dev, ctx),
+        36 => go::<D, 36>(root, msg, dev, ctx),
+        37 => go::<D, 37>(root, msg, dev, ctx),
+        38 => go::<D, 38>(root, msg, dev, ctx),
+        39 => go::<D, 39>(root, msg, dev, ctx),
+        40 => go::<D, 40>(root, msg, dev, ctx),
+        41 => go::<D, 41>(root, msg, dev, ctx),
+        42 => go::<D, 42>(root, msg, dev, ctx),
+        43 => go::<D, 43>(root, msg, dev, ctx),
+        44 => go::<D, 44>(root, msg, dev, ctx),
+        45 => go::<D, 45>(root, msg, dev, ctx),
+        46 => go::<D, 46>(root, msg, dev, ctx),
+        47 => go::<D, 47>(root, msg, dev, ctx),
+        48 => go::<D, 48>(root, msg, dev, ctx),
+        49 => go::<D, 49>(root, msg, dev, ctx),
+        _ => unreachable!("capacity not instantiated"),
+    }
+}
+
 fn run_history<Q: QueueBackend + 'static>(rng: &mut Rng, ctx: &mut Ctx, focus: Focus) {
     let tree = &<StdDev<Q> as HasTree>::TREE;
     let mut dev: StdDev<Q> = StdDev::new();
@@ -567,11 +629,31 @@ fn run_history<Q: QueueBackend + 'static>(rng: &mut Rng, ctx: &mut Ctx, focus: F
         if !want_resp.is_empty() {
             want_resp.push(b'\n');
         }
-        // run
+        // run: growable response buffer, or now and then the fixed-capacity one sized so that everything fits exactly,
+        // or so that only the terminator does not (then every unit has run and the message fails with -225, which is
+        // queued and flagged like any other failure)
         let mut c = Context::default();
         c.mav = mav;
-        let mut resp: Vec<u8> = Vec::new();
-        let r = tree.run(&msg, &mut dev, &mut c, &mut resp);
+        let fixed: Option<usize> = if want_fail.is_none() && alts.is_empty() && !want_resp.is_empty() && want_resp.len() <= 49 && rng.chance(1, 6) { Some(if rng.chance(1, 3) { want_resp.len() } else { want_resp.len() - 1 }) } else { None };
+        let (r, resp) = match fixed {
+            None => {
+                let mut resp: Vec<u8> = Vec::new();
+                let r = tree.run(&msg, &mut dev, &mut c, &mut resp);
+                (r, resp)
+            }
+            Some(cap) => {
+                ctx.count(if cap == want_resp.len() { "messages.fixed-capacity-buffer.exact-fit" } else { "messages.fixed-capacity-buffer.terminator-does-not-fit" });
+                run_fixed(cap, tree, &msg, &mut dev, &mut c)
+            }
+        };
+        if let Some(cap) = fixed {
+            if cap < want_resp.len() {
+                want_fail = Some((Some(-225), Some(Error::new(scpi::error::ErrorCode::OutOfMemory)), "response-buffer-full".to_string()));
+                // the answers themselves fitted
+                want_resp.pop();
+                want_resp.push(b'\n');
+            }
+        }
         trace.push(format!("{}{}", show(&msg), if mav { " [mav]" } else { "" }));
         if trace.len() > 14 {
             trace.remove(0);
